@@ -34,7 +34,7 @@ RULE = ("Timelines {cold start with refusal chain, connect latency 3 s, handshak
 ASSUMPTIONS = ["shutdown()/close() is called once, by one task; the caller's own pending init() "
                "(its wait_for timer) is not counted in the census until it has returned",
                "thorough: exhaustive over loop iterations of the listed timelines only"]
-REQUIRED_OBS = ["shutdown_instants_judged", "during_backoff", "during_handshake",
+REQUIRED_OBS = ["lives_judged", "shutdown_instants_judged", "during_backoff", "during_handshake",
                 "during_connect_in_flight", "steady_state", "reinit_ok", "socket_level"]
 SOAK = True   # also judged by the whole-run monitors of the soak sessions (vf/soak.py)
 BUDGET = {"quick": 110, "thorough": 1500}
@@ -373,6 +373,10 @@ def cases(tier, seed):
         yield {"gen": gen, "tl": "latency3", "trigs": [["time", 1.5]], "reinit": True,
                "anchor": "D4b"}
     for gen in (4, 5):
+        for i in range(2 if tier == "quick" else 60):
+            yield {"k": "cycles", "gen": gen, "cycles": 12 if tier == "quick" else 40,
+                   "seed": rnd.randrange(1 << 30)}
+    for gen in (4, 5):
         for tl in TIMELINES:
             K, times = reference(gen, tl)
             ks = list(range(1, K + 1))
@@ -511,7 +515,76 @@ def judge(gen, tl, trig, o, reinit):
     return viol, obs
 
 
+def run_cycles(case):
+    """Many init() / shutdown() cycles on ONE object (idle times of every size in between):
+    each life must look like the first - the six requests and the first heartbeat once each,
+    one notification per change for a subscriber attached in that life, nothing left behind."""
+    gen = case["gen"]
+    rnd = random.Random(case["seed"])
+    viol, obs = [], {}
+
+    async def main(loop, net, log):
+        w = AW.ApiWorld(gen, loop, net, log, installation(gen), C.Knobs())
+
+        def v(mech, **d):
+            viol.append({"mechanism": mech, "detail": dict(d, gen=gen, cycle=k),
+                         "log": H.log_slice(log, 30)})
+        for k in range(case["cycles"]):
+            w.console = C.SimConsole(net, installation(gen, k % 2), C.Knobs())
+            net.script.clear()
+            m = log.mark()
+            r = await H.probe(log, "init", w.at.init())
+            await quiesce(loop)
+            if r is not True:
+                v("reinit-after-shutdown-fails", ret=repr(r))
+                return
+            reqs = [kk for t, c, kk in w.console.requests()]
+            if reqs != C.STEPS + ["version_request"]:
+                v("reinit-does-not-behave-like-a-fresh-object", requests=reqs[:16])
+                return
+            ac = w.at.air_conditioners[0]
+            sub = H.Sub(log, f"life{k}")
+            ac.subscribe(sub)
+            st = w.console.inst["acs"][0]["status"]
+            if gen == 4:
+                st["set_point"] = (st["set_point"] + 1 + k) % 40
+            else:
+                st["sp_raw"] = (st["sp_raw"] + 10 * (k + 1)) % 250
+            w.console.send(net.current(), w.console.frame_ac_status())
+            await quiesce(loop)
+            if len(sub.calls) != 1:
+                v("life-does-not-behave-like-the-first:notifications-per-change",
+                  calls=len(sub.calls))
+                return
+            await asyncio.sleep(rnd.choice([0.0, 0.5, 31.0, 299.5, 301.0, 700.0]))
+            await w.at.shutdown()
+            for _ in range(10):
+                await asyncio.sleep(0)
+            tasks, timers, unknown = H.client_census(loop, {asyncio.current_task()})
+            if tasks or timers:
+                v("task-or-timer-left-when-shutdown-returns", tasks=tasks, timers=timers)
+                return
+            mark = log.mark()
+            await asyncio.sleep(rnd.choice([0.0, 0.5, 3.0, 400.0]))
+            await quiesce(loop)
+            late = [kk for _, _, kk, d in log.since(mark)
+                    if kk in ("NET.connect_attempt", "NET.write", "NET.open", "SUB.call")]
+            if late or net.open_conns():
+                v("activity-or-open-connection-after-shutdown", events=late[:5])
+                return
+            obs["lives_judged"] = obs.get("lives_judged", 0) + 1
+
+    _, log, st = H.run(main)
+    if st != "ok":
+        viol.append({"mechanism": "shutdown-scenario-hang", "detail": {"status": st}})
+    n = obs.get("lives_judged", 0)
+    return {"violations": H.cap(viol), "evals": case["cycles"], "decided": n, "distinct": n,
+            "obs": obs, "sample": {"gen": gen, "cycles": case["cycles"]}}
+
+
 def run_case(case):
+    if case.get("k") == "cycles":
+        return run_cycles(case)
     gen, tl = case["gen"], case["tl"]
     viol, obs = [], {}
     dec = 0
